@@ -22,6 +22,29 @@ from aiohttp import web
 KEY, SECRET = "the-api-key", "the-api-secret"
 
 
+class LogicalClock:
+    """The clock both clients stamp their requests with and the exchange reads when it receives them.  It only moves when the
+    (stub) rate limiter makes a caller wait, so freshness is judged without any dependence on real scheduling delays."""
+    now = 1790000000.0
+
+    def time(self):
+        return self.now
+
+
+CLOCK = LogicalClock()
+
+
+class WaitingLimiter:
+    """Stands for a token bucket that makes every caller wait `wait_s`: consume() lets that time pass on the logical clock
+    and reports that nothing is left to wait.  A request must be stamped AFTER this call."""
+    def __init__(self, wait_s: float):
+        self.wait_s = wait_s
+
+    def consume(self) -> float:
+        CLOCK.now += self.wait_s
+        return 0.0
+
+
 class Loopback:
     def __init__(self):
         self.records: List[dict] = []
@@ -42,7 +65,7 @@ class Loopback:
         await self.runner.cleanup()
 
     async def handle(self, request: web.Request):
-        recv = time.time()
+        recv = CLOCK.time()
         body = await request.read()
         raw_qs = request.raw_path.split("?", 1)[1] if "?" in request.raw_path else ""
         path = request.raw_path.split("?", 1)[0]
@@ -152,9 +175,11 @@ def bitstamp_calls(cid: str, amount: Decimal, price: Decimal, extra: dict):
 async def run_batch(cases: List[dict], limiter_wait: float = 0.0) -> List[dict]:
     """cases: [{exchange, cid, amount, price, extra}] -> one record per request with the server's verdict."""
     import aiohttp
-    from basana.core import token_bucket
     from basana.external.binance import client as bcli
-    from basana.external.bitstamp import client as btcli
+    from basana.external.binance.client import base as bcli_base
+    from basana.external.bitstamp import client as btcli, helpers as bts_helpers
+    saved_clocks = [(bcli_base, bcli_base.time), (bts_helpers, bts_helpers.time)]
+    bcli_base.time = bts_helpers.time = CLOCK        # substituted from the harness process; /repo is not changed
 
     srv = Loopback()
     await srv.start()
@@ -163,7 +188,7 @@ async def run_batch(cases: List[dict], limiter_wait: float = 0.0) -> List[dict]:
     try:
         async with aiohttp.ClientSession() as session:
             for case in cases:
-                tb = token_bucket.TokenBucketLimiter(1, 1, 0) if case.get("throttle") else None
+                tb = WaitingLimiter(1.25) if case.get("throttle") else None
                 amount, price = Decimal(case["amount"]), Decimal(case["price"])
                 if case["exchange"] == "binance":
                     api = bcli.APIClient(KEY, SECRET, session=session, tb=tb, config_overrides={"api": {"http": {"base_url": base}}})
@@ -199,6 +224,8 @@ async def run_batch(cases: List[dict], limiter_wait: float = 0.0) -> List[dict]:
                                     "version": "", "content_type": "", "dropped": False})
     finally:
         await srv.stop()
+        for mod, old in saved_clocks:
+            mod.time = old
     return out
 
 
